@@ -49,23 +49,23 @@ CHECKS = {
   "technique": TECH + "; contract stubs validated natively",
  },
  "C03": {
-  "text": "Bounded symbolic model checking, inductive step on the in-memory backend: the service's two maps are put into an arbitrary state over 2 (quick) / 3 (thorough) keys (absent / present with nil, empty or symbolic 1-byte value, version token, no or future expiry), one operation of Create/Get/GetMany/Put/PutMany/CasByVersion/Delete/ListKeys with symbolic arguments (repeated keys, current/empty/stale versions, done context) runs on the real SSA and z3 shows results and post-state equal the documented contract's reference model, with every written version new. The Redis backend is NOT covered yet (see not-applicable note in DESIGN).",
-  "note": "Trusted: gosx translation (self-checked natively on the 1-hour-offset entry), z3; NewID token stub, glob matcher stub, harness contexts, fixed clock during the step. Redis backend, larger alphabets and batches outside the claim.",
+  "text": "Bounded symbolic model checking, inductive step on the in-memory backend: the service's two maps are put into an arbitrary state over 2 (quick) / 3 (thorough) keys (absent / present with nil, empty or symbolic 1-byte value, version token, no or future expiry), one operation of Create/Get/GetMany/Put/PutMany/CasByVersion/Delete/ListKeys with symbolic arguments (repeated keys, current/empty/stale versions, done context) runs on the real SSA and z3 shows results and post-state equal the documented contract's reference model, with every written version new. Redis backend: the real redis.go method bodies (key prefixing, record codec, TTL arithmetic, checkErr, the WATCH closure, the MSET branch) run over a command-level server/go-redis stub written in the harness, same step harness and reference model; keys differing only in leading slashes collide (recorded known finding).",
+  "note": "Trusted: gosx translation (self-checked natively on the 1-hour-offset entry), z3; NewID token stub, glob matcher stub, harness contexts, fixed clock during the step. Results on the Redis backend are relative to the command-level stub (SETNX/GET/MGET/SET PX/MSET/DEL/SCAN/WATCH-MULTI-EXEC, protobuf blob); larger alphabets and batches outside the claim.",
   "technique": TECH + "; inductive step from a symbolic pre-state against a reference model",
  },
  "C06": {
-  "text": "Bounded symbolic model checking, inductive step on the in-memory backend with expiry instants anywhere relative to now (tie excluded): every operation kind is the first to touch a key after its expiry; z3 shows it is treated as deleted (Get/GetMany/CasByVersion/Delete report it missing, Create succeeds, ListKeys omits it) and that unexpired or never-expiring records are never dropped.",
-  "note": "Trusted: gosx translation (self-checked natively on the 1-hour-offset entry against the real clock), z3; stubs as C03. Redis TTL behaviour and wall-clock effects outside the claim.",
+  "text": "Bounded symbolic model checking, inductive step on both backends (Redis over a command-level stub) with expiry instants anywhere relative to now (tie excluded): every operation kind is the first to touch a key after its expiry; z3 shows it is treated as deleted (Get/GetMany/CasByVersion/Delete report it missing, Create succeeds, ListKeys omits it) and that unexpired or never-expiring records are never dropped.",
+  "note": "Trusted: gosx translation (self-checked natively on the 1-hour-offset entry against the real clock), z3; stubs as C03. Redis: the same step over the server stub with server-side expiry and the real expiration() TTL arithmetic (instants at least 1 ms apart). Wall-clock effects and sub-millisecond TTL rounding outside the claim.",
   "technique": TECH + "; inductive step from a symbolic pre-state against a reference model",
  },
  "C02": {
-  "text": "In-memory backend: (a) lock-set check on every path of every method from an arbitrary pre-state (all accesses to both maps inside the service mutex, mutex released at return) so each operation is one atomic step and concurrent histories are interleavings of the sequential steps decided in C03; (b) every version written is one never handed out before (solver, C03 step harness); (c) bounded symbolic scheduling of T=2 (quick) / 3 (thorough) real goroutines, one operation each of {Create, Put, CasByVersion current/stale, Delete, Get} on one key: single creator, at most one CAS winner, documented loser errors, distinct versions, and some sequential order explains all results and the final state. The Redis backend is not covered (no command-level stub was built).",
-  "note": "Trusted: gosx translation and scheduler (switches before every mutex/channel operation), z3; NewID token stub (ULID uniqueness contract). Redis backend, more threads/ops outside the claim.",
+  "text": "In-memory backend: (a) lock-set check on every path of every method from an arbitrary pre-state (all accesses to both maps inside the service mutex, mutex released at return) so each operation is one atomic step and concurrent histories are interleavings of the sequential steps decided in C03; (b) every version written is one never handed out before (solver, C03 step harness); (c) bounded symbolic scheduling of T=2 (quick) / 3 (thorough) real goroutines, one operation each of {Create, Put, CasByVersion current/stale, Delete, Get} on one key: single creator, at most one CAS winner, documented loser errors, distinct versions, and some sequential order explains all results and the final state. Redis backend: the same client programs over the command-level stub, interleaved at Redis-command granularity (WATCH, GET and MULTI/EXEC of CasByVersion are separate atomic server steps), all interleavings for T=2.",
+  "note": "Trusted: gosx translation and scheduler (switches before every mutex/channel operation), z3; NewID token stub (ULID uniqueness contract). Redis results are relative to the command-level stub; more threads/ops outside the claim.",
   "technique": TECH + "; bounded symbolic scheduling of goroutines + lock-set check",
  },
  "C07": {
   "text": "Bounded symbolic scheduling of the real in-memory WaitForVersionChange: W=2/3 waiter goroutines (current/stale/empty version, own cancellable context) on 1/2 keys against an environment thread running every script of 3/4 actions over {start waiter, cancel, Put, CasByVersion ok/conflict, Delete, Create, PutMany}; every schedule up to 2/3 preemptions. Monitors: a return value is justified by a moment during the call at which its documented condition held; every waiter whose condition holds does return (lost wake-up = deadlock); bookkeeping invariants after every step; table empty when all waiters are gone; lock-set check.",
-  "note": "Trusted: gosx scheduler and translation, z3; harness contexts; only unexpiring records. The Redis polling loop and free-running stress are outside the claim.",
+  "note": "Trusted: gosx scheduler and translation, z3; harness contexts; only unexpiring records. Redis: the polling loop over the server stub with the poll timer driven by the environment (every requested duration in (0,100ms], return within three poll periods). Free-running stress outside the claim.",
   "technique": TECH + "; bounded symbolic scheduling of goroutines, deadlock detection, lock-set check",
  },
  "C09": {
